@@ -7,6 +7,7 @@ import (
 	"fmt"
 	"strings"
 	"time"
+	"unsafe"
 
 	"github.com/relex/gotils/logger"
 	"github.com/relex/slog-agent/base"
@@ -17,48 +18,275 @@ import (
 )
 
 type fixture struct {
-	schema base.LogSchema
-	tf     base.LogTransform
-	lookup btest.LookupStubCustomerCounterFunc
+	schema  base.LogSchema
+	tf      base.LogTransform
+	lookup  btest.LookupStubCustomerCounterFunc
+	keyIdx  int      // index of the configured field
+	others  []string // values of the fields that are not configured (index keyIdx unused)
+	bufA    []byte   // harness-owned input buffer of the record that stays alive during the case
+	bufB    []byte   // harness-owned input buffer that is recycled: overwritten with the next text after every call
+	rec0    *base.LogRecord
+	recS    *base.LogRecord
+	nocheck bool // history steps off (used by the groups that have their own driver)
 }
 
 const (
 	label     = "redacted"
 	rawLength = 137
 	otherText = "other@field.example"
+	// dpLimit: texts longer than this are judged by the unique expectation of the reference instead of the
+	// decomposition search (which is quadratic in the text length)
+	dpLimit = 300
+	// dpHardLimit: the longest text the decomposition search is used for when the reference admits several outputs
+	dpHardLimit = 2200
 )
 
-func newFixture() *fixture {
-	schema := base.MustNewLogSchema([]string{"log", "other"})
-	cfg := &tredactemail.Config{Key: "log", MetricLabel: label}
+func newFixture() *fixture { return newFixtureAt([]string{"log", "other"}, 0) }
+
+// newFixtureAt configures the transform for field keyIdx of the given schema; all other fields carry address-bearing
+// text that has to stay as it is.
+func newFixtureAt(fields []string, keyIdx int) *fixture {
+	schema := base.MustNewLogSchema(fields)
+	cfg := &tredactemail.Config{Key: fields[keyIdx], MetricLabel: label}
 	if err := cfg.VerifyConfig(schema); err != nil {
 		panic(err)
 	}
 	reg, lookup := btest.NewStubLogCustomCounterRegistry()
-	return &fixture{schema: schema, tf: cfg.NewTransform(schema, logger.Root(), reg), lookup: lookup}
+	f := &fixture{schema: schema, tf: cfg.NewTransform(schema, logger.Root(), reg), lookup: lookup, keyIdx: keyIdx}
+	f.others = make([]string, len(fields))
+	for i := range f.others {
+		f.others[i] = fmt.Sprintf("%d:%s", i, otherText)
+	}
+	f.others[len(fields)-1] = otherText
+	f.rec0 = schema.NewTestRecord2(time.Unix(1600000000, 0), make(base.LogFields, len(fields)))
+	f.recS = schema.NewTestRecord2(time.Unix(1600000001, 0), make(base.LogFields, len(fields)))
+	return f
 }
 
-// check runs the real transform on one value and applies oracles 1-3.
-func (f *fixture) check(in string, cands []cand) (string, string) {
-	rec := f.schema.NewTestRecord2(time.Unix(1600000000, 0), base.LogFields{in, otherText})
+// own copies text into the harness-owned buffer and returns a string that ALIASES the buffer, the way field values alias
+// the (pooled, recycled) backing buffer of a record in the agent (util.MutableString).
+func own(buf *[]byte, text string) string {
+	if cap(*buf) < len(text) {
+		*buf = make([]byte, 0, 2*len(text)+64)
+	}
+	*buf = append((*buf)[:0], text...)
+	if len(text) == 0 {
+		return ""
+	}
+	return unsafe.String(&(*buf)[0], len(text))
+}
+
+// q quotes a text for a message, shortened in the middle when long
+func q(s string) string {
+	if len(s) <= 160 {
+		return fmt.Sprintf("%q", s)
+	}
+	return fmt.Sprintf("%q...(%d bytes)...%q", s[:70], len(s), s[len(s)-70:])
+}
+
+// call runs the real transform once on record rec with the configured field set to live (a string whose bytes are text)
+// and applies the per-call clauses of oracle 3: PASS, the other fields untouched, the label counter moved exactly when
+// the value changed.
+func (f *fixture) call(rec *base.LogRecord, live, text string) (out, key, msg string) {
+	for i := range rec.Fields {
+		rec.Fields[i] = f.others[i]
+	}
+	rec.Fields[f.keyIdx] = live
 	rec.RawLength = rawLength
 	c0, b0 := f.lookup(label)
 	res := f.tf.Transform(rec)
 	c1, b1 := f.lookup(label)
-	out := rec.Fields[0]
+	out = rec.Fields[f.keyIdx]
 	if res != base.PASS {
-		return "not-pass", fmt.Sprintf("%q: transform returned %v", in, res)
+		return out, "not-pass", fmt.Sprintf("%s: transform returned %v", q(text), res)
 	}
-	if rec.Fields[1] != otherText {
-		return "other-field-touched", fmt.Sprintf("%q: the field that is not configured changed to %q", in, rec.Fields[1])
+	for i := range rec.Fields {
+		if i != f.keyIdx && rec.Fields[i] != f.others[i] {
+			return out, "other-field-touched", fmt.Sprintf("%s: field %d, which is not configured, changed from %q to %q", q(text), i, f.others[i], rec.Fields[i])
+		}
 	}
 	counted := c1 - c0
-	if out == in {
+	if out == text {
 		if counted != 0 {
-			return "counter:unchanged-but-counted", fmt.Sprintf("%q came back unchanged but the %s counter moved by %d", in, label, counted)
+			return out, "counter:unchanged-but-counted", fmt.Sprintf("%s came back unchanged but the %s counter moved by %d", q(text), label, counted)
 		}
 	} else if counted != 1 || b1-b0 != rawLength {
-		return "counter:changed-not-counted-once", fmt.Sprintf("%q -> %q: the %s counter moved by %d logs / %d bytes, expected 1 / %d", in, out, label, counted, b1-b0, rawLength)
+		return out, "counter:changed-not-counted-once", fmt.Sprintf("%s -> %s: the %s counter moved by %d logs / %d bytes, expected 1 / %d", q(text), q(out), label, counted, b1-b0, rawLength)
+	}
+	return out, "", ""
+}
+
+// Fixed texts of the history steps. Their expected outputs are the unique expectations of the reference (checked at start).
+const (
+	succ1, succ1Out = "a@b.cc", "REDACTED"
+	succ2, succ2Out = "#a@b.cc", "#REDACTED"
+)
+
+var warmCache = map[int][2]string{}
+
+// warmText is a redacted text longer than n bytes: it brings whatever the instance keeps between calls (work buffers,
+// caches) into one defined state at the start of every case, so that a case behaves in a replay as it did in the run.
+func warmText(n int) (string, string) {
+	size := 128
+	for size < n+16 {
+		size *= 2
+	}
+	if w, ok := warmCache[size]; ok {
+		return w[0], w[1]
+	}
+	pad := strings.Repeat("~", size)
+	w := [2]string{"warm w@u.vw " + pad, "warm REDACTED " + pad}
+	warmCache[size] = w
+	return w[0], w[1]
+}
+
+// redactedOfLen / cleanOfLen: predecessors of exactly n bytes for the recycled buffer, one that is redacted and one that
+// is not, with their unique expected outputs.
+func redactedOfLen(n int) (string, string, bool) {
+	switch {
+	case n < 3:
+		return "", "", false
+	case n < 6:
+		return "a@b.c"[:n], mask, true // cut by the end of the text
+	}
+	pad := strings.Repeat(" ", n-6)
+	return "a@b.cc" + pad, mask + pad, true
+}
+
+// flip renames every byte outside the address bytes, '@' and '/' (i.e. every byte the statement treats as mere
+// surrounding text) to another such byte. Redaction commutes with this renaming.
+func flip(s string) string {
+	var b []byte
+	for i := 0; i < len(s); i++ {
+		c := s[i]
+		if isA[c] || c == '@' || c == '/' {
+			continue
+		}
+		if b == nil {
+			b = []byte(s)
+		}
+		if c == '#' {
+			b[i] = '!'
+		} else {
+			b[i] = '#'
+		}
+	}
+	if b == nil {
+		return s
+	}
+	return string(b)
+}
+
+const (
+	keyEarlier  = "history:earlier-output-changed"
+	keyRecycled = "history:recycled-input-buffer"
+	keyLater    = "history:result-depends-on-earlier-calls"
+)
+
+// step places text in the given harness-owned buffer (overwriting what an earlier, released record had there), runs the
+// transform on the scratch record and judges the result: equal to expect (cheap), else by the full reference. Then the
+// record of the main call, which is still alive, is compared with the private copy taken right after its own call.
+func (f *fixture) step(buf *[]byte, text, expect string, cands []cand, haveCands bool, key, what, mainIn, clone0 string) (string, string) {
+	live := own(buf, text)
+	out, k, m := f.call(f.recS, live, text)
+	if k != "" {
+		return k, what + ": " + m
+	}
+	if out != expect {
+		if !haveCands {
+			cands = nil
+			if strings.IndexByte(text, '@') >= 0 {
+				cands = analyze(text)
+			}
+		}
+		if k, m := judge(text, out, cands); k != "" {
+			return key, fmt.Sprintf("%s: %s [%s]", what, m, k)
+		}
+		// a different but admissible answer (tolerated shapes): the statement does not ask for determinism
+	}
+	if clone0 != noClone {
+		if got := f.rec0.Fields[f.keyIdx]; got != clone0 {
+			return keyEarlier, fmt.Sprintf("the record holding %s read %s right after its own call and reads %s after %s (%s) went through the same transform instance", q(mainIn), q(clone0), q(got), what, q(text))
+		}
+		for i := range f.rec0.Fields {
+			if i != f.keyIdx && f.rec0.Fields[i] != f.others[i] {
+				return keyEarlier, fmt.Sprintf("field %d of the record holding %s changed to %q after %s", i, q(mainIn), f.rec0.Fields[i], what)
+			}
+		}
+	}
+	return "", ""
+}
+
+const noClone = "\x00none"
+
+// check runs one case: the text through the real transform and oracles 1-3 on the result (judge), embedded in a small
+// history through the same long-lived instance (oracle 4, README): a warm-up call, the main call on a record that stays
+// alive, two later calls with other texts, and three rounds through ONE recycled input buffer (a redacted / an unredacted
+// / a renamed text of the same length, each followed by the text of the case again).
+func (f *fixture) check(in string, cands []cand) (string, string) {
+	n := len(in)
+	if !f.nocheck {
+		w, wOut := warmText(n)
+		if k, m := f.step(&f.bufB, w, wOut, nil, false, keyLater, "the warm-up call", "", noClone); k != "" {
+			return k, m
+		}
+	}
+	live := own(&f.bufA, in)
+	out0, k, m := f.call(f.rec0, live, in)
+	if k != "" {
+		return k, m
+	}
+	if k, m := judge(in, out0, cands); k != "" {
+		return k, m
+	}
+	if f.nocheck {
+		return "", ""
+	}
+	clone0 := strings.Clone(out0)
+	// later calls with other texts: what an earlier record holds must not move
+	if k, m := f.step(&f.bufB, succ1, succ1Out, nil, false, keyLater, "a later call", in, clone0); k != "" {
+		return k, m
+	}
+	if k, m := f.step(&f.bufB, succ2, succ2Out, nil, false, keyLater, "a later call", in, clone0); k != "" {
+		return k, m
+	}
+	// the recycled buffer: a text of the same length at the same address, then the text of the case over it
+	if p, pOut, ok := redactedOfLen(n); ok && p != in {
+		if k, m := f.step(&f.bufB, p, pOut, nil, false, keyRecycled, "a redacted text of the same length in the recycled buffer", in, clone0); k != "" {
+			return k, m
+		}
+		if k, m := f.step(&f.bufB, in, clone0, cands, true, keyRecycled, "the text again, written over a redacted text of the same length in the recycled buffer", in, clone0); k != "" {
+			return k, m
+		}
+	}
+	if n > 0 {
+		p := strings.Repeat("#", n)
+		if k, m := f.step(&f.bufB, p, p, nil, false, keyRecycled, "an address-free text of the same length in the recycled buffer", in, clone0); k != "" {
+			return k, m
+		}
+		if k, m := f.step(&f.bufB, in, clone0, cands, true, keyRecycled, "the text again, written over an address-free text of the same length in the recycled buffer", in, clone0); k != "" {
+			return k, m
+		}
+	}
+	if p := flip(in); p != in {
+		if k, m := f.step(&f.bufB, p, flip(clone0), nil, false, keyRecycled, "the text with its non-address bytes renamed, in the recycled buffer", in, clone0); k != "" {
+			return k, m
+		}
+		if k, m := f.step(&f.bufB, in, clone0, cands, true, keyRecycled, "the text again, written over its renamed twin in the recycled buffer", in, clone0); k != "" {
+			return k, m
+		}
+	}
+	return "", ""
+}
+
+// judge applies oracles 1 and 2 (and the "unchanged" half of 3) to one input/output pair.
+func judge(in, out string, cands []cand) (string, string) {
+	if len(in) > dpLimit {
+		if exp, ok := uniqueExpected(in, cands); ok {
+			return judgeLong(in, out, exp)
+		} else if len(in) > dpHardLimit {
+			return "oracle:long-text-without-unique-expectation", fmt.Sprintf("%s: the harness built a long text for which the reference admits several outputs (harness inconsistency)", q(in))
+		}
 	}
 	anyCore := false
 	for i := range cands {
@@ -73,29 +301,69 @@ func (f *fixture) check(in string, cands []cand) (string, string) {
 		return unredactedKey(in, out, cands, true)
 	}
 	if explain(in, out, cands, relax{}) {
+		if exp, ok := uniqueExpected(in, cands); ok && exp != out && !strings.Contains(in, mask) {
+			return "oracle:self-check", fmt.Sprintf("%s -> %s: accepted by the decomposition search although the reference admits only %s (harness inconsistency)", q(in), q(out), q(exp))
+		}
 		return crossCheckOutput(in, out)
 	}
 	// classify
 	if !explain(in, out, cands, relax{anySpan: true, noCover: true}) {
-		return "changed:not-a-redaction", fmt.Sprintf("%q -> %q: the output is not the input with some spans replaced by %s (text outside the redacted spans changed)", in, out, mask)
+		return "changed:not-a-redaction", fmt.Sprintf("%s -> %s: the output is not the input with some spans replaced by %s (text outside the redacted spans changed)", q(in), q(out), mask)
 	}
 	if !explain(in, out, cands, relax{bytesOnly: true, noCover: true}) {
-		return "changed:non-address-bytes", fmt.Sprintf("%q -> %q: a redacted span contains bytes that cannot belong to an address, or no '@'", in, out)
+		return "changed:non-address-bytes", fmt.Sprintf("%s -> %s: a redacted span contains bytes that cannot belong to an address, or no '@'", q(in), q(out))
 	}
 	if !explain(in, out, cands, relax{noCover: true}) {
 		switch {
 		case explain(in, out, cands, relax{noCover: true, allowNumeric: 1}):
-			return "changed:numeric-domain-trailing-dot", fmt.Sprintf("%q -> %q: the only thing redacted has a purely numeric domain (followed by a dot and more text); such text must stay unchanged", in, out)
+			return "changed:numeric-domain-trailing-dot", fmt.Sprintf("%s -> %s: the only thing redacted has a purely numeric domain (followed by a dot and more text); such text must stay unchanged", q(in), q(out))
 		case explain(in, out, cands, relax{noCover: true, allowNumeric: 2}):
-			return "changed:numeric-domain", fmt.Sprintf("%q -> %q: something with a purely numeric domain was redacted; such text must stay unchanged", in, out)
+			return "changed:numeric-domain", fmt.Sprintf("%s -> %s: something with a purely numeric domain was redacted; such text must stay unchanged", q(in), q(out))
 		case explain(in, out, cands, relax{noCover: true, allowSlash: true}):
-			return "changed:slash-prefixed", fmt.Sprintf("%q -> %q: something directly preceded by '/' was redacted; such text must stay unchanged", in, out)
+			return "changed:slash-prefixed", fmt.Sprintf("%s -> %s: something directly preceded by '/' was redacted; such text must stay unchanged", q(in), q(out))
 		case explain(in, out, cands, relax{noCover: true, allowSlash: true, allowNumeric: 2}):
-			return "changed:slash-prefixed+numeric-domain", fmt.Sprintf("%q -> %q: '/'-prefixed and numeric-domain texts were redacted", in, out)
+			return "changed:slash-prefixed+numeric-domain", fmt.Sprintf("%s -> %s: '/'-prefixed and numeric-domain texts were redacted", q(in), q(out))
 		}
-		return "changed:not-an-address", fmt.Sprintf("%q -> %q: a redacted span is not an address of the supported shape (no dotted domain / not cut by the end of the text / reaches beyond the address)", in, out)
+		return "changed:not-an-address", fmt.Sprintf("%s -> %s: a redacted span is not an address of the supported shape (no dotted domain / not cut by the end of the text / reaches beyond the address)", q(in), q(out))
 	}
 	return unredactedKey(in, out, cands, explain(in, out, cands, relax{skipDigitEdg: true}))
+}
+
+// judgeLong judges a long text by the unique expectation of the reference (the scaled texts are built so that there is
+// exactly one admissible output). The class of a mismatch is found with linear means only.
+func judgeLong(in, out, exp string) (string, string) {
+	if out == exp {
+		return "", ""
+	}
+	d := 0
+	for d < len(out) && d < len(exp) && out[d] == exp[d] {
+		d++
+	}
+	lo := d - 30
+	if lo < 0 {
+		lo = 0
+	}
+	win := func(s string) string {
+		hi := d + 40
+		if hi > len(s) {
+			hi = len(s)
+		}
+		if lo > len(s) {
+			return ""
+		}
+		return s[lo:hi]
+	}
+	where := fmt.Sprintf("%s (%d bytes) -> %d bytes, expected %d bytes; first difference at output byte %d: got ...%q..., expected ...%q...", q(in), len(in), len(out), len(exp), d, win(out), win(exp))
+	if out == in {
+		return "unredacted:core-address", where + ": the text came back unchanged although it holds an address of the supported shape"
+	}
+	if strings.Count(out, mask) < strings.Count(exp, mask) {
+		return "unredacted:core-address", where + ": fewer spans were redacted than there are addresses of the supported shape"
+	}
+	if k, m := crossCheckOutput(in, out); k != "" {
+		return k, m
+	}
+	return "changed:long-text-not-the-expected-redaction", where
 }
 
 func unredactedKey(in, out string, cands []cand, onlyDigitEdged bool) (string, string) {
@@ -121,9 +389,9 @@ func unredactedKey(in, out string, cands []cand, onlyDigitEdged bool) (string, s
 				break
 			}
 		}
-		return "unredacted:digit-edged-domain", fmt.Sprintf("%q -> %q: the address %q survives; its domain begins and ends with a digit but contains a letter, so it is not purely numeric", in, out, in[first.cs:first.ce])
+		return "unredacted:digit-edged-domain", fmt.Sprintf("%s -> %s: the address %s survives; its domain begins and ends with a digit but contains a letter, so it is not purely numeric", q(in), q(out), q(in[first.cs:first.ce]))
 	}
-	return "unredacted:core-address", fmt.Sprintf("%q -> %q: an address of the supported shape (e.g. %q) is not, or not completely, inside a redacted span", in, out, in[first.cs:first.ce])
+	return "unredacted:core-address", fmt.Sprintf("%s -> %s: an address of the supported shape (e.g. %s) is not, or not completely, inside a redacted span", q(in), q(out), q(in[first.cs:first.ce]))
 }
 
 // crossCheckOutput is the literal reading of oracle 1 on the output text: no core address built only from bytes of the
@@ -139,7 +407,7 @@ func crossCheckOutput(in, out string) (string, string) {
 		if strings.Contains(out[c.ls:c.re], mask) {
 			continue
 		}
-		return "unredacted:residual-in-output", fmt.Sprintf("%q -> %q: the output still contains %q", in, out, out[c.cs:c.ce])
+		return "unredacted:residual-in-output", fmt.Sprintf("%s -> %s: the output still contains %s", q(in), q(out), q(out[c.cs:c.ce]))
 	}
 	return "", ""
 }
@@ -244,19 +512,30 @@ var fillers = []string{
 }
 
 func enumerate(ctx *seq.Ctx) {
-	f := newFixture()
-	run := func(id, group, in string) {
-		if !ctx.Mine() {
-			ctx.Skip()
-			return
+	mkRun := func(f *fixture) runner {
+		return func(id, group, in string) {
+			if !ctx.Mine() {
+				ctx.Skip()
+				return
+			}
+			var cands []cand
+			if strings.IndexByte(in, '@') >= 0 {
+				cands = analyze(in)
+			}
+			cls, nontrivial := classOf(in, cands)
+			ctx.Group(group + "/" + cls)
+			ctx.Case(id, nontrivial, in, func() (string, string) { return f.check(in, cands) })
 		}
-		var cands []cand
-		if strings.IndexByte(in, '@') >= 0 {
-			cands = analyze(in)
+	}
+	run := mkRun(newFixture())
+	// the expected outputs of the fixed texts of the history steps are the unique expectations of the reference
+	w, wOut := warmText(0)
+	r5, r5Out, _ := redactedOfLen(5)
+	r9, r9Out, _ := redactedOfLen(9)
+	for _, p := range [][2]string{{succ1, succ1Out}, {succ2, succ2Out}, {w, wOut}, {r5, r5Out}, {r9, r9Out}, {"a@b", mask}, {"a@b.", mask}} {
+		if exp, ok := uniqueExpected(p[0], analyze(p[0])); !ok || exp != p[1] {
+			panic(fmt.Sprintf("history text %q: expectation %q is not the reference's %q (unique=%v)", p[0], p[1], exp, ok))
 		}
-		cls, nontrivial := classOf(in, cands)
-		ctx.Group(group + "/" + cls)
-		ctx.Case(id, nontrivial, in, func() (string, string) { return f.check(in, cands) })
 	}
 
 	// ---- all strings over sigma up to length 7 / 9 (symbols, not bytes)
@@ -348,6 +627,26 @@ func enumerate(ctx *seq.Ctx) {
 			}
 		}
 	}
+
+	// ---- further dimensions (dims.go); appended so that the ordinals of the cases above stay what they were
+	if !ctx.Stop() {
+		enumerateBytes(ctx, run)
+	}
+	if !ctx.Stop() {
+		enumerateRemaps(ctx, run)
+	}
+	if !ctx.Stop() {
+		enumerateScaled(ctx, run)
+	}
+	if !ctx.Stop() {
+		enumerateConfig(ctx, mkRun)
+	}
+	if !ctx.Stop() {
+		enumeratePooled(ctx)
+	}
+	if !ctx.Stop() {
+		enumerateConcurrent(ctx)
+	}
 }
 
 func main() {
@@ -357,16 +656,29 @@ func main() {
 		Level:    "exploration",
 		Rule: "bounded-exhaustive enumeration through the exported redactEmail transform: ALL strings over {a,1,.,@,/,-,space,é} of up to 7 (quick) / 9 (thorough) symbols; " +
 			"planted texts F0 A1 F1 [A2 F2 [A3 F3]] with every filler (18, incl. empty = adjacency, '@', '/', multi-byte, escape sequence) x every address shape (30) for 1 address, " +
-			"10x20 (quick) / 18x30 (thorough) for 2, 5x8 / 9x14 for 3, and the last address cut at every byte; oracle: declarative shape of DESIGN A.3 " +
+			"10x20 (quick) / 18x30 (thorough) for 2, 5x8 / 9x14 for 3, and the last address cut at every byte; " +
+			"byte alphabet: every byte value 0..255 replacing and inserted at every position of every shape in 3 surroundings, all pairs of 44 class-edge bytes at every pair of positions (5 shapes quick / 30 x 3 surroundings thorough), " +
+			"all 65 536 byte pairs at neighbouring positions (thorough), and ALL strings of up to 5 / 6 symbols under 16 class-preserving renamings of the small alphabet (z Z 0 9 _ TAB + = quotes brackets control bytes 0x80 0xff ...); " +
+			"scaled texts: 24 templates (local part, labels, label count, cut domains, '/' far left, numeric and digit-edged domains, filler before/between/after, number of addresses and of non-address '@') stretched to every n in 1..300 plus 512, 1024, 2048, 4096 +-2 (quick) / 1..1100 plus powers of two up to 65 536 and 1 MiB +-2 (thorough) in 3 surroundings; " +
+			"the configured field at every index of a 3-field schema x all single-address planted texts; the same texts in records of the real base.LogAllocator (pooled backing buffers, released and reused); " +
+			"EVERY case is a small history through one long-lived instance: warm-up call, the text in a record that stays alive, two later calls, three rounds through one recycled input buffer (a redacted / an address-free / a renamed text of the same length, each overwritten by the text of the case); " +
+			"a supplement with 3 instances in 3 goroutines (inputs enumerated, interleaving not controlled). " +
+			"Oracle: declarative shape of DESIGN A.3 " +
 			"(1: every core address of the input lies inside redacted spans and none remains in the output; 2: output = input with disjoint spans of address bytes around an '@' of a candidate replaced by REDACTED, " +
-			"everything else byte-identical; 3: no candidate => unchanged and the label counter untouched; changed => counted once with the raw length); " +
-			"non-trivial = the text has an '@' with address bytes on both sides",
+			"everything else byte-identical; 3: no candidate => unchanged and the label counter untouched; changed => counted once with the raw length; the other fields untouched; " +
+			"4: every call of the history obeys 1-3 whatever went through the instance or the input buffer before, and what a record that is still alive holds does not change when later records are processed); " +
+			"texts longer than 300 bytes are judged by the unique output the reference admits; non-trivial = the text has an '@' with address bytes on both sides",
 		Assumptions: []string{
 			"the statement names the characters of an address but not its grammar at the edges: local part ending in . - _, domain or label starting/ending with - _, empty labels, letter-free domains containing - or _, an undotted numeric domain cut by the end of the text, and '/' before a local part that starts with a non-word byte may be redacted or kept (tolerated either way)",
 			"an address is taken with its maximal run of address bytes: filler made of address bytes next to an address belongs to it (e.g. the n of a literal \\n directly before the local part)",
 			"in a@b.c@d.e how the overlapping candidates are split into spans is free as long as every byte of every address is masked",
 			"a purely numeric domain is one made of digits and dots only; 'a@1.2.' followed by more text keeps a purely numeric domain and must stay unchanged, the same at the very end of the text could be a cut-off name and is tolerated",
 			"inputs do not contain the literal REDACTED (the decomposition search would handle it, the cross-check of the output skips it)",
+			"letters are A-Z a-z, digits 0-9; every other byte value except . - _ @ / is surrounding text like any other (no byte is special because it is a control byte, a quote, '+', or part of a multi-byte character)",
+			"a record owns the memory of its field values while it is alive and that memory is reused for later records once it is released (util.MutableString, base.LogAllocator): every text is handed over in a harness-owned mutable buffer; the buffer of a record that is still compared is never touched by the harness",
+			"the statement does not ask for the same answer every time: when a later call gives another output for the same text it is judged by the full reference again and accepted if admissible (tolerated shapes)",
+			"the supported shape has no length bound and a text no bound on the number of addresses (statement: 'wherever it sits', 'any number'); texts stay below the 1 MiB record limit of defs.InputLogMaxMessageBytes",
+			"a group with three concurrent instances exists for manual use (SEQ_REDACT_CONCURRENT=1); it samples thread schedules and is therefore NOT part of the registered check",
 		},
 		Enumerate:        enumerate,
 		QuickDeadline:    4 * time.Minute,
